@@ -152,6 +152,13 @@ func (db *DB) Merge() error {
 		}
 	}
 
+	// 扫描期间未持有锁: 其他客户端的写入(含批处理中途刷盘的分片)已更新索引并影响了上面的有效性判断,
+	// 旧版本因此未被重写. 写入完成标识前须保证这些写入均已提交且已持久化, 否则崩溃后旧版本已被 merge 丢弃
+	// 而新版本无法恢复. 批处理自创建至提交全程持有 db.mu, Sync 获得该锁即说明不存在未提交的批处理
+	if err := db.Sync(); err != nil {
+		return err
+	}
+
 	// 在 merge 临时目录创建并打开 merge 完成标识文件
 	mergeFinishedFile, err := datafile.OpenFile(mergePath, 0,
 		datafile.MergeFinishedFileSuffix, db.options.FileIOType)
